@@ -762,4 +762,30 @@ theorem inj_of_nodup_names (t : Table w) (h : (t.map (·.2)).Nodup) :
     · exact absurd (hab ▸ List.mem_map_of_mem har : b.2 ∈ r.map (·.2)) hn.1
     · exact ih hn.2 a har b hbr hab
 
+/-- String() of ANY table (no hypothesis on its shape) for a value with a bit that no declared constant has:
+    the decimal form -/
+theorem string_undeclared_bit (signed : Bool) (t : Table w) (x : BitVec w)
+    (i : Nat) (hx : x.getLsbD i = true) (hi : ∀ e ∈ t, e.1.getLsbD i = false) :
+    string signed t x = .dec (decOf signed x) := by
+  rw [string_eq_general]
+  unfold specGeneral
+  have hfind : t.find? (fun e => e.1 = x) = none := by
+    rw [List.find?_eq_none]
+    intro e he hex
+    have : e.1 = x := by simpa using hex
+    rw [← this, hi e he] at hx
+    exact absurd hx (by simp)
+  rw [hfind]
+  simp only []
+  split
+  · rfl
+  · have hp := picks_props x t 0#w
+    have hno : ¬ (picks x t 0#w ≠ [] ∧ orAll (picks x t 0#w) = x) := by
+      rintro ⟨_, hu⟩
+      rw [← hu, orAll_bit, List.any_eq_true] at hx
+      obtain ⟨e, he, hei⟩ := hx
+      rw [hi e (hp.2.2.subset he)] at hei
+      exact absurd hei (by simp)
+    rw [if_neg hno]
+
 end ShootVerif.Enum.Bit
